@@ -8,7 +8,7 @@ WORK = os.path.join(VERIF, "work")
 REPLAYS = os.path.join(VERIF, "replays")
 EVIDENCE = os.path.join(VERIF, "evidence")
 REPO = "/repo"
-VH = os.path.join(HARNESS, "target", "release", "vh")
+BIN = os.path.join(HARNESS, "target", "release")
 TRUTH_CORE = os.path.join(HARNESS, "target", "release", "truth-core")
 
 
@@ -47,9 +47,9 @@ def workdir(name, fresh=True):
 
 
 def vh(args, stdin=None, timeout=1800, env=None, check=True):
-    """Run the harness binary.  A non-zero exit is a tool error (panics of the code under test are
-    caught inside the harness and reported as data)."""
-    p = subprocess.run([VH] + list(args), input=stdin, stdout=subprocess.PIPE, stderr=subprocess.PIPE,
+    """Run a harness binary: args[0] names it (harness/src/bin/<name>.rs).  A non-zero exit is a tool
+    error (panics of the code under test are caught inside the harness and reported as data)."""
+    p = subprocess.run([os.path.join(BIN, args[0])] + list(args[1:]), input=stdin, stdout=subprocess.PIPE, stderr=subprocess.PIPE,
                        text=True, timeout=timeout, env=clean_env(env))
     if check and p.returncode != 0:
         sys.stderr.write(p.stderr[-4000:])
